@@ -100,6 +100,9 @@ def generate(ctx):
         yield {"k": "impl", "co": 1, "s": subseed("c02", ctx.seed, "implco", ctx.shard, i)}
         yield {"k": "ref", "co": 1, "variant": ["minimal", "nonminimal", "extra-reserved-1", "no-version"][i % 4], "s": subseed("c02", ctx.seed, "refco", ctx.shard, i)}
         yield {"k": "impl", "ignore": [["_generated"], ["<all>"]][i % 2], "s": subseed("c02", ctx.seed, "implcfg", ctx.shard, i)}
+    # a conforming stream that announces each of MANY record types once and uses early types again much later
+    if ctx.shard == 0:
+        yield {"k": "many", "n": ctx.scale(2600, 40000), "s": subseed("c02", ctx.seed, "many")}
     for i, ent in enumerate(ctx.state["golden"]):
         if ctx.mine(i):
             yield {"k": "golden", "id": ent["id"]}
@@ -134,6 +137,36 @@ def has_known_value(o):
             return False
         return any(has_known_value(x) for x in o)
     return False
+
+
+def run_many_types(ctx, case):
+    """Reference-encoded stream with n distinct record types, each defined exactly once at its first use, and records of
+    the EARLIEST types again at the very end (a reader must keep every definition of the stream)."""
+    from flow.record import RecordStreamReader
+
+    n = case["n"]
+    gen_ts = ["dt", 2024, 1, 2, 3, 4, 5, 0, 0]
+
+    def rec(i, j):
+        fields = [["varint", "i"], ["string", "s%d" % (i % 7)]]
+        return ["rec", "many/t%d" % i, fields, [["i", ["int", "varint", i * 1000 + j]], ["s%d" % (i % 7), ["str", "string", "v%d" % j]],
+                                                ["_source", None], ["_classification", None], ["_generated", gen_ts], ["_version", ["int", "varint", 1]]]]
+
+    expected = [rec(i, 0) for i in range(n)] + [rec(i, 1) for i in range(0, 60)] + [rec(n - 1, 2)]
+    data = refcodec.encode_stream(expected)
+    try:
+        with warnings.catch_warnings():
+            warnings.simplefilter("ignore")
+            got = [observe.normalise(observe.obs(r)) for r in RecordStreamReader(io.BytesIO(data))]
+    except Exception as e:  # noqa: BLE001
+        ctx.violation(None, "conforming stream with %d record types (each defined once) is rejected by the reader: %s" % (n, type(e).__name__),
+                      detail={"exception": repr(e)[:300], "types": n})
+        return
+    compare(ctx, [observe.normalise(o) for o in expected], got, "stream with %d record types" % n)
+    ctx.event("many_types_streams")
+    ctx.event("many_types_descriptors", n)
+    ctx.nontrivial("many", n)
+    ctx.sample({"case": case, "bytes": len(data), "records": len(expected)}, kind="many")
 
 
 def same_name_types(observations):
@@ -174,6 +207,10 @@ def execute(ctx, case):
         ctx.event("golden_records", len(got))
         ctx.nontrivial("golden", ent["id"])
         ctx.sample({"case": case, "codec": ent["codec"], "records": len(got), "first": ent["expected"][0][1] if ent["expected"] else None}, kind="golden")
+        return
+
+    if k == "many":
+        run_many_types(ctx, case)
         return
 
     focus = (case["t"], case["vc"]) if "t" in case else None
